@@ -756,7 +756,7 @@ def oracle_request(ctx, eng, P, step, resp, rows0, dump0, dump1, notfound_tpl, r
 
 
 # ---------------------------------------------------------------------------- running a history
-def run_history(ctx, P, steps, want_case=True, count=False, P_engine=None):
+def run_history(ctx, P, steps, want_case=True, count=False, P_engine=None, transport=None):
     """Run `steps` on a fresh engine.  -> (coq case | None, violations [(sig, detail, what, step index)], observed log)"""
     eng = kdrv.Engine(policies=copy.deepcopy(P_engine if P_engine is not None else P), workdir=ctx.work)
     viol, hsteps, log = [], [], []
@@ -776,8 +776,11 @@ def run_history(ctx, P, steps, want_case=True, count=False, P_engine=None):
             rows0 = rows_of(dump0)
             version = tuple(step['version'])
             items = [build_item(it, version) for it in step['items']]
-            resp = eng.request(items, version=version, user=step['user'], groups=step['groups'],
-                               batch_option=(E.BatchErrorContinuationOption.CONTINUE if step.get('cont') else None))
+            if transport is not None:        # e.g. through a real KmipSession that establishes the identity itself
+                resp = transport(eng, step, items)
+            else:
+                resp = eng.request(items, version=version, user=step['user'], groups=step['groups'],
+                                   batch_option=(E.BatchErrorContinuationOption.CONTINUE if step.get('cont') else None))
             if resp['error'] is not None:
                 raise RuntimeError('request-level error in a generated history: %r' % resp['error'])
             dump1 = eng.dump()
@@ -826,7 +829,7 @@ def run_history(ctx, P, steps, want_case=True, count=False, P_engine=None):
 
 
 # ---------------------------------------------------------------------------- generating histories
-def gen_history_live(ctx, rng, P, n_steps, locate_bias=False):
+def gen_history_live(ctx, rng, P, n_steps, locate_bias=False, identity_table=None):
     """Generate a history step by step against a scratch engine so that identifiers aim at live objects."""
     eng = kdrv.Engine(policies=copy.deepcopy(P), workdir=ctx.work)
     steps = []
@@ -855,6 +858,13 @@ def gen_history_live(ctx, rng, P, n_steps, locate_bias=False):
 
                 def pick_uid(base_pick=base_pick, focus=focus):
                     return focus if rng.random() < 0.6 else base_pick()
+            if identity_table is not None:
+                # the group list is not chosen by the requester: it is what the directory service says about the user
+                if user not in identity_table:
+                    user = rng.choice(sorted(identity_table))
+                if rng.random() < 0.35:
+                    user = rng.choice(sorted(identity_table))
+                groups = identity_table[user]
             version = (1, 2)
             items = []
             x = rng.random()
@@ -1046,12 +1056,12 @@ HEADER_B = ('From Coq Require Import String ZArith List Bool.\n'
             'Import ListNotations.\nOpen Scope Z_scope.\nOpen Scope string_scope.\n')
 
 
-def shrink(ctx, P, steps, sig, upto, budget=40, P_engine=None):
+def shrink(ctx, P, steps, sig, upto, budget=40, P_engine=None, transport=None):
     """Greedy removal of steps while a violation with the same signature still reproduces."""
     cur = steps[:upto + 1]
     def fails(cand):
         try:
-            _, v, _ = run_history(ctx, P, cand, want_case=False, P_engine=P_engine)
+            _, v, _ = run_history(ctx, P, cand, want_case=False, P_engine=P_engine, transport=transport)
         except Exception:
             return False
         return any(x[0] == sig for x in v)
@@ -1085,7 +1095,7 @@ def report_violations(ctx, viol, P, P_engine, doc, steps, state):
 
 def histories(ctx):
     quick = ctx.tier == 'quick'
-    n_hist, n_steps = (20, 36) if quick else (160, 70)
+    n_hist, n_steps = (14, 36) if quick else (160, 70)
     rng = ctx.subrng('histories')
     cases, metas = [], []
     plan = []
@@ -1188,6 +1198,159 @@ def document_cases(ctx, eng):
             ctx.disagreement('documents', dict(meta[i][0][j], policy_document=meta[i][1]), model_says=not meta[i][0][j]['impl'], impl_says=meta[i][0][j]['impl'])
         if not idx:
             ctx.disagreement('documents', {'policy_document': meta[i][1], 'note': out[:300]})
+
+
+# ============================================================================ K(d): the identity is established by the session
+# "With group information ... without it only the preset section" starts where the identity is ESTABLISHED: a real
+# KmipSession (fake TLS connection, client certificate, SLUGS answering per user) in front of the real engine; every
+# answer is judged by the specification decision for (user, the group list the directory service returned).
+SLUGS_URL = 'http://slugs.verif/'
+SLUGS_USERS = {'alice': ['G1'], 'bob': ['G2'], 'carol': [], 'dave': ['GX'], 'erin': ['G2', 'G1'], 'frank': None}
+# frank: the service answers without a 'groups' member -> no group information; anybody else: 404, unknown user
+
+
+class UserSlugs:
+    """stands in for requests.get inside the SLUGS plugin: answers per user"""
+    def __init__(self, table):
+        self.table = table
+        self.calls = []
+
+    def set_frame(self, i):
+        pass
+
+    def get(self, url, timeout=None):
+        import sessdrv
+        self.calls.append(url)
+        if not url.startswith(SLUGS_URL + 'users/'):
+            raise ConnectionError('no such host ' + url)
+        rest = url[len(SLUGS_URL + 'users/'):]
+        user = rest[:-len('/groups')] if rest.endswith('/groups') else rest
+        if user not in self.table:
+            return sessdrv._Resp(404, {})
+        if rest.endswith('/groups'):
+            return sessdrv._Resp(200, {} if self.table[user] is None else {'groups': list(self.table[user])})
+        return sessdrv._Resp(200, {})
+
+
+def session_transport(with_slugs=True, log=None):
+    """-> transport(eng, step, items): one TLS connection of `step['user']` (certificate CN) carrying the request"""
+    import sessdrv
+    from kmip.core import utils as kutils
+    from kmip.core.messages import messages as kmessages, contents as kcontents
+
+    def transport(eng, step, items):
+        version = tuple(step['version'])
+        req = eng.build(items, version=version,
+                        batch_option=(E.BatchErrorContinuationOption.CONTINUE if step.get('cont') else None))
+        stream = sessdrv.encode_request(req, version)
+        proxy = sessdrv.EngineProxy(eng)
+        conn = sessdrv.FakeConn(stream, [len(stream)], sessdrv.make_cert([step['user']], 'client'))
+        settings = [('auth:slugs', {'enabled': 'True', 'url': SLUGS_URL})] if with_slugs else []
+        t = eng.clock.t
+        obs = sessdrv.run_connection(proxy, conn, tls_client_auth=True, auth_settings=settings, slugs=UserSlugs(SLUGS_USERS), dumps=False)
+        eng.clock.t = t
+        sent = b''.join(obs['frames'][0]['sent']) if obs['frames'] else b''
+        if log is not None:
+            log.append({'user': step['user'], 'credential_seen_by_engine': [list(c['credential']) if c.get('credential') else None for c in proxy.calls]})
+        if not sent:
+            raise RuntimeError('the session sent nothing back')
+        resp = kmessages.ResponseMessage()
+        resp.read(kutils.BytearrayStream(sent), kmip_version=kcontents.protocol_version_to_kmip_version(kcontents.ProtocolVersion(*version)))
+        return {'error': None, 'items': [kdrv.project_item(bi) for bi in resp.batch_items], 'raw': resp, 'engine_calls': len(proxy.calls)}
+    return transport
+
+
+def session_corpus():
+    """a key under a policy whose preset is open and whose group sections are strict, probed by every kind of user"""
+    def st(user, items):
+        return {'user': user, 'groups': SLUGS_USERS[user], 'version': [1, 2], 'cont': False, 'items': items}
+    h = [st('alice', [{'k': 'create', 'pol': 'pg'}]), st('alice', [{'k': 'create', 'pol': 'pa'}]),
+         st('bob', [{'k': 'register', 'type': 'SECRET_DATA', 'pol': 'pg'}]), st('frank', [{'k': 'create', 'pol': 'pg'}]),
+         st('alice', [{'k': 'create', 'pol': None}])]
+    for user in ('carol', 'dave', 'frank', 'bob', 'erin', 'alice'):
+        for u in ('1', '2', '3', '4', '5'):
+            for k in ('get', 'get_attributes', 'get_attribute_list', 'mac'):
+                h.append(st(user, [{'k': k, 'uid': u}]))
+        h.append(st(user, [{'k': 'locate', 'type': None}]))
+        h.append(st(user, [{'k': 'get', 'uid': '1', 'wrap': '2'}]))
+        h.append(st(user, [{'k': 'derive', 'uids': ['1', '3'], 'pol': None}]))
+    for user in ('carol', 'dave'):
+        h.append(st(user, [{'k': 'destroy', 'uid': '1'}]))
+        h.append(st(user, [{'k': 'modify_attribute', 'uid': '2', 'attr': 'group', 'val': 'taken'}]))
+    return h
+
+
+def session_histories(ctx):
+    quick = ctx.tier == 'quick'
+    rng = ctx.subrng('session')
+    cases, metas = [], []
+    state = {'reported': set(), 'shrunk': 0}
+
+    def one(label, doc, steps, transport, P, P_engine):
+        case, viol, log = run_history(ctx, P, steps, want_case=True, count=True, P_engine=P_engine, transport=transport)
+        cases.append(case)
+        metas.append({'history': label, 'policy_document': doc, 'steps': steps, 'observed': log})
+        ctx.count('session.requests', len(steps))
+        for sig, detail, what, si in viol:
+            sig = dict(sig, layer='session')
+            key = json.dumps(sig, sort_keys=True, default=str)
+            if key in state['reported']:
+                continue
+            state['reported'].add(key)
+            if state['shrunk'] < 1:
+                state['shrunk'] += 1
+                wsteps = shrink(ctx, P, steps, {k: v for k, v in sig.items() if k != 'layer'}, si, budget=25, P_engine=P_engine, transport=transport)
+            else:
+                wsteps = steps[:si + 1]
+            ctx.violation(sig, {'kind': 'session-history', 'policy_document': doc, 'slugs': SLUGS_USERS, 'steps': wsteps, 'detail': detail,
+                                'how_to_replay': 'bin/check C03 --replay <this file>: real KmipSession (client certificate CN = the user, SLUGS plugin enabled, '
+                                                 'the directory service answering the group lists under "slugs"; [] = in no group, null = no groups member) in front of '
+                                                 'the real engine whose policies are the built-ins plus the policy document; each answer is judged for (user, the group '
+                                                 'list the service returned)'},
+                          what + ' [identity established by the session: certificate CN + SLUGS]')
+    pg = {'pg': {'preset': mon_section('open')['preset'],
+                 'groups': {'G1': mon_section('strict')['preset'], 'G2': mon_section('strict')['preset']}}}
+    pg['pg']['preset']['SECRET_DATA'] = dict(pg['pg']['preset']['SYMMETRIC_KEY'])
+    docc = dict(random_policy_document(ctx.subrng('session-corpus')), **pg)
+    P, P_engine = load_document(ctx, docc)
+    one('session-corpus', docc, session_corpus(), session_transport(True), P, P_engine)
+    for k in range(4 if quick else 20):
+        doc = dict(random_policy_document(rng), **pg)
+        P, P_engine = load_document(ctx, doc)
+        steps = gen_history_live(ctx, rng, P_engine, 30 if quick else 50, locate_bias=(k % 3 == 2), identity_table=SLUGS_USERS)
+        for st in steps:                                   # a few objects under the open-preset / strict-groups policy
+            for it in st['items']:
+                if it['k'] in ('create', 'register') and rng.random() < 0.3:
+                    it['pol'] = 'pg'
+        one('session-seeded-%d' % k, doc, steps, session_transport(True), P, P_engine)
+    # no authentication plugin: the identity is the certificate's common name and there is NO group information
+    doc = dict(random_policy_document(rng), **pg)
+    P, P_engine = load_document(ctx, doc)
+    steps = gen_history_live(ctx, rng, P_engine, 30, identity_table={u: None for u in SLUGS_USERS})
+    one('session-no-plugin', doc, steps, session_transport(False), P, P_engine)
+    # a user the directory service does not know is refused before the engine is reached
+    eng = kdrv.Engine(policies=copy.deepcopy(P_engine), workdir=ctx.work)
+    try:
+        eng.request([kdrv.create(mask=MASK)], user='alice')
+        d0 = eng.dump()
+        for k in ('get', 'get_attributes', 'locate', 'destroy'):
+            it = {'k': 'locate', 'type': None} if k == 'locate' else {'k': k, 'uid': '1'}
+            resp = session_transport(True)(eng, {'user': 'mallory', 'version': [1, 2]}, [build_item(it, (1, 2))])
+            if any(r['status'] == 'SUCCESS' for r in resp['items']) or resp['engine_calls'] or eng.dump() != d0:
+                ctx.violation({'class': 'session', 'fails': 'unknown-user'}, {'kind': 'session', 'user': 'mallory', 'item': it,
+                                                                              'answer': [(r['status'], r['reason'], r['message']) for r in resp['items']]},
+                              'a user the directory service does not know got %s through' % k)
+            ctx.count('session.unknown-user.refused')
+    finally:
+        eng.close()
+    bad = ctx.run_cases('session_histories', HEADER_B, cases, 'check_history', shard=4,
+                        what='the same comparator as `histories`, but every request travels through a real KmipSession (certificate CN + SLUGS plugin '
+                             'answering per user: [G1], [G2], [], [GX], [G2,G1], no groups member; one history without plugin) and the model is run '
+                             'with the identity (user, the group list the directory service returned)')
+    for i in bad[:4]:
+        first = ctx.model_output(HEADER_B, 'first_bad (fst (%s)) empty_store (snd (%s)) 0' % (cases[i], cases[i]))
+        ctx.disagreement('session_histories', {'history': metas[i]['history'], 'policy_document': metas[i]['policy_document'], 'slugs': SLUGS_USERS,
+                                               'steps': metas[i]['steps'], 'observed': metas[i]['observed']}, model_says=first[:1500])
 
 
 # ============================================================================ K(c): the policy store fed by the directory monitor
@@ -1441,6 +1604,16 @@ def replay(ctx, data):
     w = data.get('input') or {}
     if w.get('kind') == 'monitor':
         return replay_monitor(ctx, w)
+    if w.get('kind') == 'session-history':
+        P, P_engine = load_document(ctx, w['policy_document'])
+        seen = []
+        _, viol, log = run_history(ctx, P, w['steps'], want_case=False, P_engine=P_engine, transport=session_transport(True, log=seen))
+        for sig, detail, what, si in viol:
+            print('step %d: %s' % (si, what))
+            print('    identity handed to the engine:', seen[si]['credential_seen_by_engine'] if si < len(seen) else '?',
+                  ' directory service said:', SLUGS_USERS.get(w['steps'][si]['user']))
+        print('REPRODUCED' if viol else 'not reproduced')
+        return 1 if viol else 0
     if w.get('kind') != 'history' and w.get('policy_document') is not None:
         P_spec, P_engine = load_document(ctx, w['policy_document'])
         eng = kdrv.Engine(policies=P_engine, workdir=ctx.work)
@@ -1527,6 +1700,7 @@ def run(ctx):
     finally:
         eng.close()
     histories(ctx)
+    session_histories(ctx)
     monitor_histories(ctx)
     bad = ctx.run_cases('policy_file_loader', HEADER_C, _loaded_cases, 'chk_loaded', shard=10,
                         what='load_document (Policy/PolicyFile.v) vs the dict built by kmip.core.policy.read_policy_from_file, and '
